@@ -102,8 +102,10 @@ static const char *cur_call = "none" ;
 static int cur_h = -1 ;
 static char scn_tag [256] = "" ;
 
+static volatile int ev_open = 0 ;	/* an event line has been started and not finished (a crash inside the call being logged) */
 static void ev_begin (const char *op, int h)
-{	fprintf (evf, "{\"s\":%d,\"i\":%d,\"h\":%d,\"op\":\"%s\"", scn_id, seqno++, h, op) ;
+{	ev_open = 1 ;
+	fprintf (evf, "{\"s\":%d,\"i\":%d,\"h\":%d,\"op\":\"%s\"", scn_id, seqno++, h, op) ;
 }
 static void ev_int (const char *k, long long v)
 {	/* TLC integers are 32 bit : clamp visibly rather than wrap silently */
@@ -127,6 +129,7 @@ static long long fault_eff ; static int fault_kind ; static int fault_armed (voi
 static void ev_end (void)
 {	if (fault_kind != 0) fprintf (evf, ",\"fe\":%lld,\"fa\":%d,\"fk\":%d", fault_eff, fault_armed (), fault_kind) ;
 	fputs ("}\n", evf) ;
+	ev_open = 0 ;
 }
 static void ev_bytes (const char *k, const unsigned char *p, long long n)
 {	fprintf (evf, ",\"%s\":[", k) ;
@@ -136,14 +139,16 @@ static void ev_bytes (const char *k, const unsigned char *p, long long n)
 
 static void die_flush (void)
 {	if (evf)
-	{	fprintf (evf, "{\"s\":%d,\"i\":%d,\"h\":%d,\"op\":\"crash\",\"during\":\"%s\"}\n", scn_id, seqno, cur_h, cur_call) ;
+	{	if (ev_open) fputc ('\n', evf) ;	/* leave the unfinished line to itself : the tools drop it */
+		fprintf (evf, "{\"s\":%d,\"i\":%d,\"h\":%d,\"op\":\"crash\",\"during\":\"%s\"}\n", scn_id, seqno, cur_h, cur_call) ;
 		fflush (evf) ;
 		}
 }
 static void on_alarm (int sig)
 {	(void) sig ;
 	if (evf)
-	{	fprintf (evf, "{\"s\":%d,\"i\":%d,\"h\":%d,\"op\":\"timeout\",\"during\":\"%s\"}\n", scn_id, seqno, cur_h, cur_call) ;
+	{	if (ev_open) fputc ('\n', evf) ;
+		fprintf (evf, "{\"s\":%d,\"i\":%d,\"h\":%d,\"op\":\"timeout\",\"during\":\"%s\"}\n", scn_id, seqno, cur_h, cur_call) ;
 		fflush (evf) ;
 		}
 	_exit (3) ;
